@@ -168,6 +168,10 @@ class LHooks(sx.Hooks):
     def loop_tag(self, fname):
         return {"foreach_rev": "rev", "foreach_fwd": "fwd"}.get(fname, sx.ascii_name(fname))
 
+    def loop_body_ok(self, body_text):
+        # idx, full, history() decide the index lists of foreach_fwd / foreach_rev and the bounds of the for loops
+        return not re.search(r"\b(so_set_idx|so_set_full|so_resize|g_reset|g_resize|g_update_sy_impl)\b", body_text)
+
 
 # ----------------------------------------------------------------------------- units
 
